@@ -399,3 +399,90 @@ def done_depends_on_registry_only(ctx, rep, rule):
                       "report done at once and their successors start before them")
     rep.ok(rule, "is_done() of %d classes reads only the registry and constructor-set state (%d other attributes "
                  "checked)" % (len([r.jobbase] + r.nestable), nchk))
+
+
+# ======================================================= configuration is what the caller gave
+CONFIG = {
+    'jobbase': ('forever', 'critical'),
+    'sched': ('jobs_window', 'timeout', 'shutdown_timeout'),
+}
+
+
+def config_verbatim(ctx, rep, rule, which=None):
+    """the flags that parametrise a run are what the caller gave: the constructor stores each parameter
+    unchanged in the attribute of the same name, on every path; nothing else in the package writes that
+    attribute; the constructors of the subclasses (and of the nestable class, which has two parents) forward
+    the parameter unchanged; is_critical() is the `critical` attribute."""
+    from ..graphmodel import GraphModel
+    r = ctx.roles
+    p = ctx.prog
+    n = 0
+    for role, names in CONFIG.items():
+        cls = r.jobbase if role == 'jobbase' else r.sched
+        names = [x for x in names if which is None or x in which]
+        if not names:
+            continue
+        f = cls.methods.get('__init__')
+        if f is None:
+            rep.error(rule, "%s has no constructor" % cls.name)
+            continue
+        an, ip, out = ctx.explore(f, model=GraphModel)
+        exits = [st for st in out.nxt] + [st for st, _v, _n in out.ret]
+        for name in names:
+            stores = [e for e in an.events('STORE') if e.data['obj'] == T.SELF and e.data['attr'] == name
+                      and e.data['depth'] == 0]
+            n += 1
+            rep.check(bool(stores) and all(e.data['val'] == T.mk(('var', name)) and not e.loops and
+                                           not [k for k in e.st.facts if T.contains(k, T.mk(('var', name)))]
+                                           for e in stores) and name in (list(f.params) + list(f.kwonly)),
+                      rule, "%s stores `%s` as given" % (f.qualname, name), f.qualname,
+                      "stores to self.%s: %s" % (name, [(e.where, T.show(e.data['val'], 3)) for e in stores] or "none"),
+                      "the scheduler runs with another `%s` than the one the caller set" % name)
+            # who else writes it
+            for g in p.all_functions():
+                if g is f:
+                    continue
+                for node in walk_local(g.node):
+                    tg = node.targets if isinstance(node, ast.Assign) else \
+                        [node.target] if isinstance(node, (ast.AugAssign, ast.AnnAssign)) else []
+                    for t in tg:
+                        if isinstance(t, ast.Attribute) and t.attr == name and g.cls is not None \
+                                and (cls in g.cls.mro or (isinstance(t.value, ast.Name) and t.value.id != 'self')):
+                            rep.fail(rule, "%s:%d `%s` written outside the constructor" % (g.module.relpath, node.lineno, name),
+                                     g.qualname, "`%s`" % src(node)[:80],
+                                     "the configuration of a job / scheduler changes behind the caller's back")
+            # subclasses forward it unchanged
+            for sub in p.subclasses(cls, strict=True):
+                g = sub.methods.get('__init__')
+                if g is None:
+                    continue
+                for c in walk_local(g.node):
+                    if isinstance(c, ast.Call) and isinstance(c.func, ast.Attribute) and c.func.attr == '__init__':
+                        for k in c.keywords:
+                            if k.arg == name:
+                                n += 1
+                                rep.check(isinstance(k.value, ast.Name) and k.value.id == name, rule,
+                                          "%s:%d `%s` forwarded unchanged" % (g.module.relpath, c.lineno, name),
+                                          g.qualname, "`%s=%s`" % (name, src(k.value)),
+                                          "the subclass changes the `%s` the caller gave" % name)
+    if which is None or 'critical' in which:
+        for cls in [r.jobbase] + r.nestable:
+            f = p.supplier(cls, 'is_critical')
+            if f is None:
+                continue
+            for crit in (True, False):
+                for forever in (True, False):
+                    o = tt.Obj('job', critical=crit, forever=forever, jobs=[],
+                               **{r.registry_attr: None, r.running_attr: False, '__class__': cls})
+                    ev = evaluator(ctx, cls)
+                    try:
+                        got = ev.call_method('is_critical', o)
+                    except (tt.Inconclusive, tt.Raised) as e:
+                        rep.error(rule, "%s.is_critical: outside the evaluable fragment (%s)" % (cls.name, e))
+                        break
+                    n += 1
+                    rep.check(bool(got) == crit, rule, "%s.is_critical() with critical=%s forever=%s"
+                              % (cls.name, crit, forever), f.qualname,
+                              "is_critical() gives %r for a job created with critical=%s (forever=%s)" % (got, crit, forever),
+                              "the run tells critical jobs from tolerated ones by is_critical(): it must be the flag")
+    rep.need(rule, n, 1, "configuration obligations")
